@@ -80,6 +80,15 @@ pub enum Ret {
     Stats(StatsOut),
     Records(Vec<Rec>),
     Value(String),
+    Twin(Box<TwinRet>),
+}
+
+#[derive(Clone, Debug, PartialEq)]
+pub struct TwinRet {
+    pub plain: crate::corpus::Outcome,
+    pub traced: crate::corpus::Outcome,
+    /// current_local_parent() as the traced call saw it
+    pub parent_ctx: Option<(u128, u64, bool)>,
 }
 
 #[derive(Clone, Debug)]
@@ -159,7 +168,7 @@ pub fn accesses(op: &Op) -> Vec<Acc> {
         Op::CtxCurrent { ctx } => vec![Excl(*ctx)],
         Op::RootFromCtx { slot, ctx, .. } => vec![Excl(*slot), Read(*ctx)],
         Op::Pop { into: Some(s) } | Op::Collect { into: Some(s) } => vec![Excl(*s)],
-        Op::UnwindScope { slot } | Op::ScopeBurst { slot, .. } => vec![Read(*slot)],
+        Op::UnwindScope { slot } | Op::ScopeBurst { slot, .. } | Op::Twin { slot: Some(slot), .. } => vec![Read(*slot)],
         Op::Push { slot, set } => vec![Read(*slot), Read(*set)],
         Op::ToRecords { set, .. } => vec![Read(*set)],
         Op::NewTask { task, span, .. } => {
@@ -713,9 +722,15 @@ pub fn exec_op(ctx: &mut ThreadCtx, idx: usize, op: OpRef, o: &Op, inner: &[Op])
             crate::teardown::arm(*early, op);
             Ret::None
         }
-        Op::NewTask { .. } | Op::Poll { .. } | Op::DropTask { .. } | Op::Twin { .. } => {
-            crate::tasks::exec_async(ctx, idx, op, o, inner)
+        Op::Twin { f, arg, slot } => {
+            let plain = crate::corpus::run(*f, *arg, false);
+            let g = slot.map(|s| slot_span(&sh, s).set_local_parent());
+            let parent_ctx = ctx_tuple(SpanContext::current_local_parent());
+            let traced = crate::corpus::run(*f, *arg, true);
+            drop(g);
+            Ret::Twin(Box::new(TwinRet { plain, traced, parent_ctx }))
         }
+        Op::NewTask { .. } | Op::Poll { .. } | Op::DropTask { .. } => crate::tasks::exec_async(ctx, idx, op, o, inner),
     }
 }
 
